@@ -1,0 +1,204 @@
+//go:build verif
+
+package dyntpl
+
+import (
+	"encoding/hex"
+	"strconv"
+)
+
+// Hooks for the verification harness (/verif). Compiled only with -tags verif; add-only.
+
+// VerifResetRegistry empties the global template registry.
+func VerifResetRegistry() {
+	tplDB.mux.Lock()
+	tplDB.idxID = make(map[int]int)
+	tplDB.idxKey = make(map[string]int)
+	tplDB.idxHash = make(map[uint64]int)
+	tplDB.tpl = nil
+	tplDB.mux.Unlock()
+}
+
+// VerifRegistryShape reports the sizes of the registry's indexes and slot array.
+func VerifRegistryShape() (ids, keys, hashes, slots int) {
+	tplDB.mux.RLock()
+	defer tplDB.mux.RUnlock()
+	return len(tplDB.idxID), len(tplDB.idxKey), len(tplDB.idxHash), len(tplDB.tpl)
+}
+
+// VerifTreeHash returns the checksum stored in the tree.
+func VerifTreeHash(t *Tree) uint64 { return t.hsum }
+
+func verifHex(dst []byte, p []byte) []byte {
+	dst = append(dst, ' ')
+	if len(p) == 0 {
+		return append(dst, '-')
+	}
+	return hex.AppendEncode(dst, p)
+}
+
+func verifInt(dst []byte, i int) []byte {
+	dst = append(dst, ' ')
+	return strconv.AppendInt(dst, int64(i), 10)
+}
+
+func verifBool(dst []byte, b bool) []byte {
+	if b {
+		return append(dst, ' ', '1')
+	}
+	return append(dst, ' ', '0')
+}
+
+func verifArgs(dst []byte, args []*arg) []byte {
+	dst = verifInt(dst, len(args))
+	for _, a := range args {
+		dst = verifHex(dst, a.name)
+		dst = verifHex(dst, a.val)
+		dst = verifBool(dst, a.static)
+		dst = verifBool(dst, a.global)
+	}
+	return dst
+}
+
+func verifNodes(dst []byte, nodes []node) []byte {
+	dst = verifInt(dst, len(nodes))
+	for i := range nodes {
+		n := &nodes[i]
+		dst = append(dst, " N"...)
+		dst = verifInt(dst, int(n.typ))
+		dst = verifHex(dst, n.raw)
+		dst = verifHex(dst, n.prefix)
+		dst = verifHex(dst, n.suffix)
+		dst = verifBool(dst, n.noesc)
+		dst = verifHex(dst, n.ctxVar)
+		dst = verifHex(dst, n.ctxSrc)
+		dst = verifHex(dst, n.ctxOK)
+		dst = verifBool(dst, n.ctxSrcStatic)
+		dst = verifHex(dst, n.ctxIns)
+		dst = verifHex(dst, n.cntrVar)
+		dst = verifInt(dst, n.cntrInit)
+		dst = verifBool(dst, n.cntrInitF)
+		dst = verifInt(dst, int(n.cntrOp))
+		dst = verifInt(dst, n.cntrOpArg)
+		dst = verifHex(dst, n.condL)
+		dst = verifHex(dst, n.condR)
+		dst = verifHex(dst, n.condOKL)
+		dst = verifHex(dst, n.condOKR)
+		dst = verifBool(dst, n.condStaticL)
+		dst = verifBool(dst, n.condStaticR)
+		dst = verifInt(dst, int(n.condOp))
+		dst = verifHex(dst, n.condHlp)
+		dst = verifArgs(dst, n.condHlpArg)
+		dst = verifHex(dst, n.condIns)
+		dst = verifInt(dst, int(n.condLC))
+		dst = verifHex(dst, n.loopKey)
+		dst = verifHex(dst, n.loopVal)
+		dst = verifHex(dst, n.loopSrc)
+		dst = verifHex(dst, n.loopCnt)
+		dst = verifHex(dst, n.loopCntInit)
+		dst = verifBool(dst, n.loopCntStatic)
+		dst = verifInt(dst, int(n.loopCntOp))
+		dst = verifInt(dst, int(n.loopCondOp))
+		dst = verifHex(dst, n.loopLim)
+		dst = verifBool(dst, n.loopLimStatic)
+		dst = verifHex(dst, n.loopSep)
+		dst = verifInt(dst, n.loopBrkD)
+		dst = verifHex(dst, n.switchArg)
+		dst = verifHex(dst, n.caseL)
+		dst = verifHex(dst, n.caseR)
+		dst = verifBool(dst, n.caseStaticL)
+		dst = verifBool(dst, n.caseStaticR)
+		dst = verifInt(dst, int(n.caseOp))
+		dst = verifHex(dst, n.caseHlp)
+		dst = verifArgs(dst, n.caseHlpArg)
+		dst = verifInt(dst, len(n.tpl))
+		for _, t := range n.tpl {
+			dst = verifHex(dst, t)
+		}
+		dst = verifInt(dst, len(n.mod))
+		for j := range n.mod {
+			dst = verifHex(dst, n.mod[j].id)
+			dst = verifArgs(dst, n.mod[j].arg)
+		}
+		dst = verifNodes(dst, n.child)
+	}
+	return dst
+}
+
+// VerifDumpTree returns a complete, canonical dump of the node tree: every field of node, mod and arg,
+// as space-separated tokens (byte strings in hex, "-" for empty), children in prefix order.
+func VerifDumpTree(t *Tree) []byte {
+	if t == nil {
+		return []byte("nil")
+	}
+	dst := make([]byte, 0, 1024)
+	dst = append(dst, 'T')
+	return verifNodes(dst, t.nodes)
+}
+
+// VerifCtxShape reports lengths and flags of every piece of per-render state of a context
+// (not capacities), so that a reset context can be compared with a new one.
+func VerifCtxShape(ctx *Ctx) []byte {
+	dst := make([]byte, 0, 256)
+	b := func(k string, v bool) {
+		dst = append(dst, ' ')
+		dst = append(dst, k...)
+		dst = append(dst, '=')
+		if v {
+			dst = append(dst, '1')
+		} else {
+			dst = append(dst, '0')
+		}
+	}
+	i := func(k string, v int) {
+		dst = append(dst, ' ')
+		dst = append(dst, k...)
+		dst = append(dst, '=')
+		dst = strconv.AppendInt(dst, int64(v), 10)
+	}
+	i("ln", ctx.ln)
+	b("chQB", ctx.chQB)
+	b("chJQ", ctx.chJQ)
+	b("chHE", ctx.chHE)
+	b("chUE", ctx.chUE)
+	b("noesc", ctx.noesc)
+	i("buf", len(ctx.buf))
+	i("bufS", len(ctx.bufS))
+	b("bufX", ctx.bufX != nil)
+	i("bufA", len(ctx.bufA))
+	i("bufLC", len(ctx.bufLC))
+	i("bufMO", ctx.bufMO.Len())
+	i("bufCB", ctx.bufCB.Len())
+	i("dfr", len(ctx.dfr))
+	i("ipvl", ctx.ipvl)
+	i("brkD", ctx.brkD)
+	i("wl", ctx.wl)
+	i("kvl", ctx.kvl)
+	i("BufAcc", ctx.BufAcc.Len())
+	i("Buf", ctx.Buf.Len())
+	i("Buf1", ctx.Buf1.Len())
+	i("Buf2", ctx.Buf2.Len())
+	b("BufB", ctx.BufB)
+	b("BufI", ctx.BufI != 0)
+	b("BufU", ctx.BufU != 0)
+	b("BufF", ctx.BufF != 0)
+	b("BufT", !ctx.BufT.IsZero())
+	b("BufX", ctx.BufX != nil)
+	b("Err", ctx.Err != nil)
+	nrl, busy, dirty := 0, 0, 0
+	for rl := ctx.rl; rl != nil; rl = rl.next {
+		nrl++
+		if rl.stat != rlFree {
+			busy++
+		}
+		if rl.c != 0 || rl.cntr != 0 {
+			dirty++
+		}
+	}
+	i("rlBusy", busy)
+	i("rlDirty", dirty)
+	for j := 0; j < len(ctx.vars) && j < ctx.ln; j++ {
+		_ = j
+	}
+	return dst
+}
